@@ -98,6 +98,12 @@ class Size(Aggregation):
         return 0
 
 
+def _sum_of_squares(x):
+    # in float64, as pandas computes variances: the squares of a narrow
+    # integer column do not fit its own type
+    return (x.astype('float64') ** 2).sum()
+
+
 class Var(Aggregation):
     def __init__(self, ddof=1):
         self.ddof = ddof
@@ -126,7 +132,7 @@ class Var(Aggregation):
         x, x2, n = acc
         if len(new):
             x = x + new.sum()
-            x2 = x2 + (new ** 2).sum()
+            x2 = x2 + _sum_of_squares(new)
             n = n + new.count()
 
         return (x, x2, n), self._compute_result(x, x2, n)
@@ -135,7 +141,7 @@ class Var(Aggregation):
         x, x2, n = acc
         if len(new):
             x = x - new.sum()
-            x2 = x2 - (new ** 2).sum()
+            x2 = x2 - _sum_of_squares(new)
             n = n - new.count()
 
         return (x, x2, n), self._compute_result(x, x2, n)
@@ -611,7 +617,7 @@ class GroupbyVar(GroupbyAggregation):
         g = self.grouped(new, grouper=grouper)
         if len(new):
             x = x.add(g.sum(), fill_value=0)
-            x2 = x2.add(g.agg(lambda x: (x**2).sum()), fill_value=0)
+            x2 = x2.add(g.agg(_sum_of_squares), fill_value=0)
             n = n.add(g.count(), fill_value=0)
 
         return (x, x2, n), self._compute_result(x, x2, n)
@@ -621,7 +627,7 @@ class GroupbyVar(GroupbyAggregation):
         g = self.grouped(old, grouper=grouper)
         if len(old):
             x = x.sub(g.sum(), fill_value=0)
-            x2 = x2.sub(g.agg(lambda x: (x**2).sum()), fill_value=0)
+            x2 = x2.sub(g.agg(_sum_of_squares), fill_value=0)
             n = n.sub(g.count(), fill_value=0)
 
         return (x, x2, n), self._compute_result(x, x2, n)
@@ -635,7 +641,7 @@ class GroupbyVar(GroupbyAggregation):
         new = new.iloc[:0]
         g = self.grouped(new, grouper=grouper)
         x = g.sum()
-        x2 = g.agg(lambda x: (x**2).sum())
+        x2 = g.agg(_sum_of_squares)
         n = g.count()
 
         return (x, x2, n)
